@@ -17,10 +17,17 @@ where
         return None;
     };
 
+    // If one of the boundaries is exclusive, equal boundaries leave no valid value.
+    let (relation, comparison) = if validators.has_exclusive_bound() {
+        ("greater than", quote!(#upper > #lower))
+    } else {
+        ("greater than or equal to", quote!(#upper >= #lower))
+    };
+
     let msg = format!(
         "
 Inconsistent lower and upper boundaries for type `{type_name}`
-The upper boundary `{upper}` must be greater than or equal to the lower boundary `{lower}`
+The upper boundary `{upper}` must be {relation} the lower boundary `{lower}`
 Note: the test is generated automatically by #[nutype] macro.
 "
     );
@@ -28,7 +35,7 @@ Note: the test is generated automatically by #[nutype] macro.
     Some(quote!(
         #[test]
         fn should_have_consistent_lower_and_upper_boundaries() {
-            assert!(#upper >= #lower, #msg);
+            assert!(#comparison, #msg);
         }
     ))
 }
